@@ -38,11 +38,15 @@ package ggql
 //@ func (*Root).skipSel
 //@   props C09
 //@   check panic {C03}
-//@   requires sel != nil
-//@   requires forall i int :: 0 <= i && i < len(sel.Directives()) ==> sel.Directives()[i] != nil && sel.Directives()[i].Directive != nil
+//@   requires sel != nil && ptrval(sel) != 0
 //@   ensures[formula] skip <==> skippedUpTo(sel.Directives(), vars, len(sel.Directives()))
-//@   loop 0: invariant 0 <= rangeindex+1 && rangeindex+1 <= len(sel.Directives())
-//@           invariant skip <==> skippedUpTo(sel.Directives(), vars, rangeindex+1)
+//@   ensures[errs-fresh]{C06} errsFresh(ea)
+//@   ensures[no-resolver] #res == old(#res)
+//@   check frame {C11}
+//@   assigns fresh
+//@   loop 0: invariant[bounds] 0 <= rangeindex+1 && rangeindex+1 <= len(sel.Directives())
+//@           invariant[errs] errsFresh(ea)
+//@           invariant[formula] skip <==> skippedUpTo(sel.Directives(), vars, rangeindex+1)
 //@           decreases len(sel.Directives()) - rangeindex
 //@           use skippedUnfold(sel.Directives(), vars, rangeindex+1)
 
@@ -433,9 +437,70 @@ package ggql
 
 //@ -- END generated scalar contracts
 
+//@ comparable Type, Selection
+
+//@ -- ------------------------------------------------------------------ data-structure invariants of parsed documents and loaded schemas
+//@ -- (trusted: established by the parsers; every use is listed under assumptions in the evidence)
+//@ eleminv []Selection: v != nil && ptrval(v) != 0
+//@ eleminv []*DirectiveUse: v != nil
+//@ eleminv []*ArgValue: v != nil
+//@ eleminv []*VarDef: v != nil
+//@ fieldinv DirectiveUse.Directive: v != nil
+//@ fieldinv FragRef.Fragment: v != nil
+//@ fieldinv VarDef.Type: v != nil
+
 //@ -- ------------------------------------------------------------------ C06 error paths
+//@ spec errsOK(ea []error) bool = (forall i int {ea[i]} :: 0 <= i && i < len(ea) ==> ea[i] != nil && allocated(aserr(ea[i]))) && (forall i int, j int {ea[i], ea[j]} :: 0 <= i && i < j && j < len(ea) && aserr(ea[i]) != nil ==> aserr(ea[i]) != aserr(ea[j]))
+//@ spec errsFresh(ea []error) bool = errsOK(ea) && (forall i int {ea[i]} :: 0 <= i && i < len(ea) && aserr(ea[i]) != nil ==> fresh(aserr(ea[i])))
 //@ spec prefixed(e *Error, loc interface{}) bool = len(e.Path) == old(len(e.Path)) + 1 && e.Path[0] == loc && (forall j int :: 0 <= j && j < old(len(e.Path)) ==> e.Path[j+1] == old(e.Path[j]))
 //@ spec samePath(e *Error) bool = len(e.Path) == old(len(e.Path)) && (forall j int :: 0 <= j && j < len(e.Path) ==> e.Path[j] == old(e.Path[j]))
+
+//@ spec concatOf(a []error, b []error, c []error) bool = len(c) == len(a) + len(b) && (forall k int {c[k]} :: 0 <= k && k < len(c) ==> c[k] == ite(k < len(a), a[k], b[k - len(a)]))
+//@ spec crossDistinct(a []error, b []error) bool = forall i int, j int {a[i], b[j]} :: 0 <= i && i < len(a) && 0 <= j && j < len(b) && aserr(b[j]) != nil ==> aserr(a[i]) != aserr(b[j])
+//@ lemma errsAppend(a []error, b []error, c []error): errsOK(a) && errsOK(b) && crossDistinct(a, b) && concatOf(a, b, c) ==> errsOK(c)
+//@ lemma errsAppendFresh(a []error, b []error, c []error): (forall i int {a[i]} :: 0 <= i && i < len(a) && aserr(a[i]) != nil ==> fresh(aserr(a[i]))) && (forall i int {b[i]} :: 0 <= i && i < len(b) && aserr(b[i]) != nil ==> fresh(aserr(b[i]))) && concatOf(a, b, c) ==> (forall i int {c[i]} :: 0 <= i && i < len(c) && aserr(c[i]) != nil ==> fresh(aserr(c[i])))
+//@ appendlemma error errsAppend
+//@ appendlemma error errsAppendFresh
+
+//@ spec newErr(res error, line int, col int) bool = is(res, *Error) && as(res, *Error) != nil && fresh(as(res, *Error)) && allocated(as(res, *Error)) && as(res, *Error).Line == line && as(res, *Error).Column == col && as(res, *Error).Base != nil
+
+//@ func resWarn
+//@   props C06
+//@   check panic {C03}
+//@   check frame {C11}
+//@   ensures[shape] newErr(res, line, col) && len(as(res, *Error).Path) == 0
+//@   assigns fresh
+
+//@ func resError
+//@   props C06
+//@   check panic {C03}
+//@   check frame {C11}
+//@   ensures[shape] newErr(res, line, col) && len(as(res, *Error).Path) == 0
+//@   assigns fresh
+
+//@ func valError
+//@   props C06
+//@   check panic {C03}
+//@   ensures[shape] newErr(res, line, col) && len(as(res, *Error).Path) == 0
+//@   assigns fresh
+
+//@ func parseError
+//@   props C06
+//@   check panic {C03}
+//@   ensures[shape] newErr(res, line, col) && len(as(res, *Error).Path) == 0
+//@   assigns fresh
+
+//@ func resWarnp
+//@   props C06
+//@   check panic {C03}
+//@   check frame {C11}
+//@   requires sel != nil ==> ptrval(sel) != 0
+//@   ensures[shape] is(res, *Error) && as(res, *Error) != nil && fresh(as(res, *Error)) && allocated(as(res, *Error)) && as(res, *Error).Base != nil
+//@   ensures[path-field] is(sel, *Field) ==> len(as(res, *Error).Path) == 1 && as(res, *Error).Path[0] == box(fkey(as(sel, *Field)))
+//@   ensures[path-none] !is(sel, *Field) ==> len(as(res, *Error).Path) == 0
+//@   ensures[location] sel != nil ==> as(res, *Error).Line == sel.Line() && as(res, *Error).Column == sel.Column()
+//@   ensures[no-location] sel == nil ==> as(res, *Error).Line == 0 && as(res, *Error).Column == 0
+//@   assigns fresh
 
 //@ func (*Error).in
 //@   props C06
@@ -449,11 +514,76 @@ package ggql
 //@   props C06
 //@   check panic {C03}
 //@   check frame {C06}
-//@   requires forall i int, j int :: 0 <= i && i < j && j < len(err) && aserr(err[i]) != nil ==> aserr(err[i]) != aserr(err[j])
-//@   requires forall i int :: 0 <= i && i < len(err) ==> allocated(aserr(err[i]))
+//@   requires errsOK(err)
 //@   ensures[each-once] forall i int :: 0 <= i && i < len(err) && aserr(err[i]) != nil ==> prefixed(aserr(err[i]), loc)
-//@   assigns fresh, H_Error.Path
-//@   loop 0: invariant 0 <= rangeindex+1 && rangeindex+1 <= len(err)
-//@           invariant forall i int :: 0 <= i && i <= rangeindex && aserr(err[i]) != nil ==> prefixed(aserr(err[i]), loc)
-//@           invariant forall i int :: rangeindex < i && i < len(err) && aserr(err[i]) != nil ==> samePath(aserr(err[i]))
+//@   assigns fresh, forall i in err: aserr(err[i]).Path
+//@   loop 0: invariant[bounds] 0 <= rangeindex+1 && rangeindex+1 <= len(err)
+//@           invariant[done] forall i int :: 0 <= i && i <= rangeindex && aserr(err[i]) != nil ==> prefixed(aserr(err[i]), loc)
+//@           invariant[todo] forall i int :: rangeindex < i && i < len(err) && aserr(err[i]) != nil ==> samePath(aserr(err[i]))
 //@           decreases len(err) - rangeindex
+
+//@ -- ------------------------------------------------------------------ resolve walk (C01, C06, C08, C09, C10)
+//@ spec fkey(f *Field) string = ite(len(f.Alias) > 0, f.Alias, f.Name)
+//@ spec isnilv(v interface{}) bool = v == nil || (ptrlike(v) && ptrval(v) == 0)
+//@ spec skippedSel(sel Selection, vars map[string]interface{}) bool = skippedUpTo(sel.Directives(), vars, len(sel.Directives()))
+//@ spec fdOf(t Type, name string) *FieldDef = ite(is(t, *Object), as(t, *Object).fields.dict[name], ite(is(t, *uuSchema), as(t, *uuSchema).fields.dict[name], ite(is(t, *Schema), as(t, *Schema).fields.dict[name], ite(is(t, *Interface), as(t, *Interface).fields.dict[name], nil))))
+
+//@ func (*Root).getFieldDef
+//@   props C10
+//@   check panic {C03}
+//@   requires is(t, *Object) ==> as(t, *Object) != nil
+//@   requires is(t, *uuSchema) ==> as(t, *uuSchema) != nil
+//@   requires is(t, *Schema) ==> as(t, *Schema) != nil
+//@   requires is(t, *Interface) ==> as(t, *Interface) != nil
+//@   ensures[lookup] fd == fdOf(t, name)
+//@   assigns nothing
+
+//@ func (*Root).resolveInline
+//@   ensures[errs-fresh]{C06} errsFresh(ea)
+//@   props C08
+//@   check panic {C03}
+//@   check frame {C11}
+//@   requires root != nil && sel != nil && result != nil && t != nil
+//@   requires !skippedSel(box(sel), vars)
+//@   ensures[not-applicable]{C08} sel.Condition != nil && sel.Condition != t ==> len(ea) == 0 && #res == old(#res) && (forall k string :: (has(result, k) <==> old(has(result, k))) && result[k] == old(result[k]))
+//@   assigns fresh, result, H_Field.ConType, H_Field.Args
+
+//@ func (*Root).resolveFragRef
+//@   ensures[errs-fresh]{C06} errsFresh(ea)
+//@   props C08
+//@   check panic {C03}
+//@   check frame {C11}
+//@   requires root != nil && sel != nil && result != nil && t != nil
+//@   requires !skippedSel(box(sel), vars)
+//@   ensures[not-applicable]{C08} sel.Fragment.Condition != nil && sel.Fragment.Condition != t ==> len(ea) == 0 && #res == old(#res) && (forall k string :: (has(result, k) <==> old(has(result, k))) && result[k] == old(result[k]))
+//@   assigns fresh, result, H_Field.ConType, H_Field.Args
+
+//@ func (*Root).resolveSels
+//@   ensures[errs-fresh]{C06} errsFresh(ea)
+//@   props C01
+//@   check panic {C03}
+//@   check frame {C11}
+//@   requires root != nil && result != nil
+//@   requires t != nil
+//@   assigns fresh, result, H_Field.ConType, H_Field.Args
+//@   loop 0: invariant[bounds] 0 <= rangeindex+1 && rangeindex+1 <= len(sels)
+//@           invariant[errs] errsFresh(ea)
+//@           decreases len(sels) - rangeindex
+
+//@ func (*Root).resolveField
+//@   props C01
+//@   requires root != nil && field != nil && result != nil && t != nil
+//@   requires !skippedSel(box(field), vars)
+//@   ensures[errs-fresh]{C06} errsFresh(ea)
+//@   assigns fresh, result, H_Field.ConType, H_Field.Args
+//@   abstract (contract not yet checked against the body)
+
+//@ func (*Root).resolveFieldSels
+//@   props C01
+//@   check panic {C03}
+//@   check frame {C11}
+//@   requires root != nil && field != nil
+//@   requires t != nil
+//@   ensures[fresh-map]{C01} is(result, map[string]interface{}) && fresh(as(result, map[string]interface{}))
+//@   ensures[errs-fresh]{C06} errsFresh(ea)
+//@   assigns fresh, H_Field.ConType, H_Field.Args
